@@ -266,6 +266,9 @@ class WebSocketResponse(StreamResponse, Generic[_DecodeText]):
             return self._payload_writer
 
         protocol, writer = self._pre_start(request)
+        # A body of the handshake request is still HTTP: consume it before the
+        # frame reader takes over, or its late bytes would be read as frames.
+        await request.release()
         payload_writer = await super().prepare(request)
         assert payload_writer is not None
         self._post_start(request, protocol, writer)
